@@ -196,7 +196,7 @@ func vpNetDial(network, address string) (net.Conn, error) {
 	return c, nil
 }
 
-//vp:use asn1der
+//vp:use asn1der gocache
 
 // vpRealDER: decode with the library's rules (shared harness part asn1der; natively the real library)
 // instead of the contract below.
@@ -549,7 +549,7 @@ func VP_C20_der() {
 }
 
 
-//vp:property C20
+//vp:property C20 C09
 //vp:bounds two requests for the same realm served at the same time by ONE proxy value (as the HTTP server does): the realm has one TCP KDC, which answers the first request only after the second has reached it too, and the second after that; embedded messages and replies of 1 symbolic byte each; the KDC closes after replying or keeps the connection open
 //vp:assume cooperative schedule: a request runs until it waits for its KDC
 //vp:reach both-answered
